@@ -82,6 +82,8 @@ def plan(prop, tier, seed):
         shards += [{"kind": "instr5", "n": 1500 if q else 25000, "shard": i, "hz": hz} for i in range(4 if q else 16)]
     if prop == "C07":
         shards += [{"kind": "straight", "n": 150 if q else 2500, "shard": i, "hz": True} for i in range(2)]
+    if prop in ("C07", "C02"):
+        # the equivalence of the two modes (C02) and the schedule (C07) do not depend on the cache configuration
         shards += [{"kind": "cached", "n": 150 if q else 1500, "shard": i, "hz": True} for i in range(4 if q else 16)]
     if prop == "C08":
         shards += [{"kind": "padded", "n": 250 if q else 2500, "shard": i, "hz": False} for i in range(4 if q else 16)]
@@ -178,7 +180,7 @@ def run_shard(spec, res):
             n = rng.randint(1, 40)
             case = {"kind": "pipe", "prog": G.straightline_independent(rng, n), "regs": {}, "mem": {}, "hz": True, "max_instr": 100, "straight": True}
         elif kind == "cached":
-            prog, regs = G.structured_program(rng, size=rng.randint(4, 30), aligned=True) if rng.random() < 0.6 else (G.soup_program(rng, rng.randint(2, 20), aligned=True), G.soup_regs(rng))
+            prog, regs = G.structured_program(rng, size=rng.randint(4, 30), aligned=True) if rng.random() < 0.6 else (G.soup_program(rng, rng.randint(2, 20), aligned=True, mem_w=0.3), G.soup_regs(rng))
             case = {"kind": "pipe", "prog": prog, "regs": regs, "mem": G.init_mem(rng), "hz": True, "max_instr": 200, "dcache": rand_cache(rng), "icache": rand_cache(rng) if rng.random() < 0.7 else None}
             if rng.random() < 0.2:
                 case["dcache"] = None
@@ -208,7 +210,13 @@ def rand_cache(rng):
 # -------------------------------------------------------------------------------------------------
 
 
-LAST = {"tag": None}  # property tag of the violation that made the last run_five() return None
+LAST = {"tag": None, "kind": None}  # tag / kind of the violation that made the last run_five() return None
+TIMING_KINDS = ("cycle-increment", "retire-cycle", "cycle-total", "n-plus-4")
+
+
+def last_was_value_violation():
+    """did the last run_five() stop because a VALUE/ORDER monitor fired (not a timing/penalty one)?"""
+    return LAST["tag"] in ("C02", "C08") and LAST["kind"] not in TIMING_KINDS
 
 
 class _Tagging:
@@ -218,7 +226,7 @@ class _Tagging:
         self._res = res
 
     def violation(self, prop, kind, msg, case):
-        LAST["tag"] = prop
+        LAST["tag"], LAST["kind"] = prop, kind
         self._res.violation(prop, kind, msg, case)
 
     def __getattr__(self, name):
@@ -254,7 +262,7 @@ def run_five(case, res, prop, ref, on_sim=None):
     """runs the real five-stage pipeline under the monitors; returns summary dict or None after a violation"""
     from architecture_simulator.simulation.runtime_errors import InstructionExecutionException
 
-    LAST["tag"] = None
+    LAST["tag"] = LAST["kind"] = None
     res = _Tagging(res)
     hz = case["hz"]
     VAL = prop if prop in ("C02", "C08") else ("C02" if hz else "C08")  # tag for value/order clauses
@@ -551,7 +559,7 @@ def run_case(prop, case, res):
         nontrivial = bool(ref.stale_reads or ref.flushes or ref.ex_stalls)
     # ------------------------------------------------------------------ three-way: real single-cycle run
     if hz and prop == "C02":
-        s1 = make_riscv("single")
+        s1 = make_riscv("single", dcache=case.get("dcache"), icache=case.get("icache"))
         install_program(s1, case["prog"])
         set_regs(s1, case["regs"])
         preload_mem(s1, case["mem"])
@@ -581,7 +589,7 @@ def _single_cycle_fault(case, prog, ref, sim5, res):
     """both modes must report the same faulting address with identical registers / output / memory"""
     from architecture_simulator.simulation.runtime_errors import InstructionExecutionException
 
-    s1 = make_riscv("single")
+    s1 = make_riscv("single", dcache=case.get("dcache"), icache=case.get("icache"))
     install_program(s1, case["prog"])
     set_regs(s1, case["regs"])
     preload_mem(s1, case["mem"])
